@@ -51,6 +51,8 @@ def jobs(tier):
     take(C07, [r"add_(double|complex)\.upto", r"add_integer$"], "vnacal_save")
     take(C20, [r"add_counts\.(T8|U8|UE14|E12)_2x2_bad", r"solve_too_few\.(T8|UE14|U8)_2x2"], "vnacal_new")
     take(C18, [r"weights\.UE14$", r"m_error_reset\.UE14$"], "vnacal_new")
+    import C11
+    take(C11, [r"refused\.make_correlated\.case[0126]$"], "vnacal")   # refusal paths free their private copies
     import C01
     take(C01, [r"apply_frame\.(T8|UE14)_f[02]$"], "vnacal")      # apply: no read outside the caller's vectors, also for an empty request
     take(C12, [r"vnacal_corr\.k00$"], "vnacal")       # parameter chains incl. a borrowed sigma frequency vector: freed exactly once
